@@ -47,7 +47,17 @@ func (l *evlog) write(b []byte) {
 func (l *evlog) lastReplyCode() string {
 	l.mu.Lock()
 	defer l.mu.Unlock()
+	// the last line the server has written, whether or not an event (an asynchronous panic log line, say) has been
+	// recorded since: such an event flushes the pending octets into a W entry
 	b := l.wbuf
+	if len(b) == 0 {
+		for i := len(l.evs) - 1; i >= 0; i-- {
+			if strings.HasPrefix(l.evs[i], "W:") {
+				b = unhx(l.evs[i][2:])
+				break
+			}
+		}
+	}
 	b = []byte(strings.TrimRight(string(b), "\r\n"))
 	if i := strings.LastIndex(string(b), "\n"); i >= 0 {
 		b = b[i+1:]
